@@ -117,6 +117,10 @@ type SchedCfg struct {
 	PCTLen    int   `json:"pct_len"`              // expected run length for change point placement
 	Dense     bool  `json:"dense,omitempty"`      // scheduling points before every statement of the library (rewriter rule R9)
 	OldTimers bool  `json:"old_timers,omitempty"` // timer channels as before Go 1.23: a tick not received survives Stop/Reset (R13)
+	// StallPermille > 0: at a scheduling point the chosen goroutine is, with that probability, not given a
+	// processor for up to StallMaxNs of simulated time (a stalled thread or node) and must be chosen again afterwards
+	StallPermille int   `json:"stall_permille,omitempty"`
+	StallMaxNs    int64 `json:"stall_max_ns,omitempty"`
 }
 
 type Case struct {
@@ -251,6 +255,9 @@ type Env struct {
 	// OnPanic is set by the world: a panic in any controlled goroutine that
 	// is not a harness task (those have their own handler in Spawn).
 	OnPanic func(name string, v any, stack string)
+	// StallOK: may the goroutine parked at that point be stalled (sched.stall_permille)? A world
+	// allows it where a slow thread is legal and its oracles account for it.
+	StallOK func(name, point string) bool
 }
 
 type fnvHash struct{ h uint64 }
@@ -522,6 +529,16 @@ func (e *Env) Loop(w World) {
 			break
 		}
 		P := e.RT.Runnable()
+		if len(P) == 0 && e.RT.Stalled() > 0 {
+			// somebody could run but has no processor at the moment: not a quiescent state
+			tm := time.NewTimer(time.Duration(e.Cfg.StallMaxNs) + time.Second)
+			select {
+			case <-e.RT.Arrival:
+				tm.Stop()
+			case <-tm.C:
+			}
+			continue
+		}
 		if len(P) == 0 {
 			// nothing is runnable: the world may judge the quiescent state
 			// before the clock is allowed to jump
@@ -586,7 +603,22 @@ func (e *Env) Loop(w World) {
 			}
 			e.Res.Trace = append(e.Res.Trace, fmt.Sprintf("[%d %v] run %s @%s   of %v", e.step, e.Now(), g.Name, g.Point, names))
 		}
-		e.RT.Release(g, zsimrt.Token{Sel: sel})
+		var stall time.Duration
+		if e.Cfg.StallPermille > 0 && e.Cfg.StallMaxNs > 0 && e.StallOK != nil && e.StallOK(g.Name, g.Point) {
+			stall = time.Duration(e.draw(func() int64 {
+				if e.rng.Intn(1000) < e.Cfg.StallPermille {
+					return 1 + e.rng.I64n(e.Cfg.StallMaxNs)
+				}
+				return 0
+			}))
+			if stall < 0 || int64(stall) > e.Cfg.StallMaxNs {
+				stall = 0
+			}
+			if stall > 0 {
+				e.FaultFired("goroutine_stalled")
+			}
+		}
+		e.RT.Release(g, zsimrt.Token{Sel: sel, Stall: stall})
 	}
 }
 
